@@ -93,6 +93,11 @@ def errToPanic {α} (m : GoM α) : GoM α :=
   | .error (.err n) => .error (.panic n)
   | .error other => .error other
 
+/-- the four encodings `encoding/base64` predefines (which one a decoder is given is part of what a translation shows) -/
+inductive B64Enc where
+  | std | url | rawStd | rawUrl
+  deriving DecidableEq, Repr
+
 /-- `errs = errors.Join(errs, e)` with a non-nil `e`: the accumulated error is non-nil afterwards (the model keeps the first) -/
 def joinErr (errs : Option GoErr) (e : GoErr) : Option GoErr := some (errs.getD e)
 
